@@ -16,6 +16,7 @@ ADDR = 'ipc://p'
 TOPIC_SETS = [['main'], ['main'], ['main'], ['main', 'x'], ['x', 'main', '_m'], ['_m'], [], ['a', 'b', 'c']]
 HEAL_ROUNDS = 4
 HEAL_DRAIN = 3
+FAIR_ALTS = 5
 HEAL_BODY = 10 ** 6
 
 
@@ -178,6 +179,32 @@ class Rig:
         for _ in range(HEAL_ROUNDS): evs += [mk(t2), {'k': 'recv'}]
         return evs
 
+    def fair_schedule(self, rng, t_now):
+        """A random FAIR continuation as in C06_pair_fair_heals (OFProps/C06Fair.lean): evs1 = any interleaving with three sends at the
+        current clock reading, evs2 = any interleaving (bursts of either side) at clock readings >= t2 = max(t1, every t_last) +
+        ZMQ_CONN_TIMEOUT + 1 containing FAIR_ALTS alternations "a send, later a recv", plus a few extra calls."""
+        t1 = t_now
+        t2 = max([t1] + [c.t_last for c in self.S.clients.values()]) + self.Z.ZMQ_CONN_TIMEOUT + 1
+        mk = lambda t: {'k': 'send', 'payload': {'k': 'topics', 'ts': [['main', HEAL_BODY]]}, 't': t}
+        evs, ns = [], 0
+        while ns < HEAL_DRAIN:
+            for _ in range(rng.choice([0, 0, 1, 1, 2, 4])): evs.append({'k': 'recv'})
+            evs.append(mk(t1)); ns += 1
+        for _ in range(rng.choice([0, 1, 3])): evs.append({'k': 'recv'})
+        style = rng.choice(['mixed', 'sendheavy', 'recvheavy', 'bursts'])
+        alts, waiting, t = 0, False, t2
+        while alts < FAIR_ALTS:
+            r = rng.random()
+            k = ('send' if r < 0.5 else 'recv') if style == 'mixed' else ('send' if r < 0.85 else 'recv') if style == 'sendheavy' else \
+                ('send' if r < 0.15 else 'recv') if style == 'recvheavy' else (evs[-1]['k'] if r < 0.75 else ('recv' if evs[-1]['k'] == 'send' else 'send'))
+            if k == 'send':
+                t += rng.choice([0, 0, 0, 1, 100, 100, 6000])
+                evs.append(mk(t)); waiting = True
+            else:
+                evs.append({'k': 'recv'})
+                if waiting: alts += 1; waiting = False
+        return evs
+
     def natural_schedule(self, t_now, k):
         """Exploration only (no theorem behind it): k plain rounds [recv; send] one connection time-out later."""
         t2 = max([t_now] + [c.t_last for c in self.S.clients.values()]) + self.Z.ZMQ_CONN_TIMEOUT + 1
@@ -187,7 +214,7 @@ class Rig:
         return evs + [{'k': 'recv'}]
 
 
-def run_impl(trial, natural=0, per_queue=False):
+def run_impl(trial, natural=0, per_queue=False, fair_rng=None):
     """Runs trial['prefix'] (+ the healing schedule, computed here from the real objects and stored in trial['heal']).
     Returns the per-event [(obs, snap)].  natural=k: use k plain rounds instead (exploration)."""
     logging.disable(logging.CRITICAL)
@@ -200,7 +227,8 @@ def run_impl(trial, natural=0, per_queue=False):
     if natural:
         tail = rig.natural_schedule(t_now, natural)
     else:
-        if trial.get('heal') is None: trial['heal'] = rig.heal_schedule_queue(t_now) if per_queue else rig.heal_schedule(t_now)
+        if trial.get('heal') is None:
+            trial['heal'] = rig.fair_schedule(fair_rng, t_now) if fair_rng is not None else rig.heal_schedule_queue(t_now) if per_queue else rig.heal_schedule(t_now)
         tail = trial['heal']
         trial['prev_at_fault'] = rig.R.prev_id
     for ev in tail:
